@@ -1324,7 +1324,7 @@ func (e *executor) exec1(line, lean string) string {
 			keptErr, keptErrText = err, err.Error()
 		}
 		res := genLine("chargen", lean, p, err, ro, warn, unk, 3, secretsOf(p, nil)) + oracle + after()
-		if a["obj"] == "" && len(line)%5 == 0 {
+		if a["obj"] == "" && a["gc"] == "1" {
 			res += keptResultSurvives(&p)
 		}
 		return res
@@ -1670,7 +1670,7 @@ func (e *executor) exec1(line, lean string) string {
 			}
 		}
 		res := genLine("wlgen", lean, p, err, ro, warn, unk, 8, secretsOf(p, listWords)) + so + mut + after()
-		if a["obj"] == "" && a["wlobj"] == "" && len(line)%5 == 0 {
+		if a["obj"] == "" && a["wlobj"] == "" && a["gc"] == "1" {
 			res += keptResultSurvives(&p)
 		}
 		return res
